@@ -172,7 +172,8 @@ func genEnv(g *simrt.Rng, tier string) Env {
 
 // sizeAlphabet returns message sizes around the interesting boundaries of window w.
 func sizeAlphabet(g *simrt.Rng, w int, maxSize int) int {
-	cands := []int{1, 2, 3, w/2 - 1, w / 2, w/2 + 1, w - 1, w, w + 1, 2 * w, 3*w + 5, 16, 17, 100, 1000, 1 + g.IntN(300)}
+	cands := []int{1, 2, 3, w/2 - 1, w / 2, w/2 + 1, w - 1, w, w + 1, 2 * w, 3*w + 5, 16, 17, 100, 1000, 1 + g.IntN(300),
+		880 + g.IntN(150)} // the last: frames that (nearly) use up a 1 KiB block of the write / receive queues
 	for tries := 0; tries < 8; tries++ {
 		s := cands[g.IntN(len(cands))]
 		if s >= 1 && s <= maxSize {
